@@ -16,7 +16,7 @@ import (
 // C03 — a connection becomes verified only by a valid long-term-key signature.
 
 var (
-	idL = refctl.NewIdentity("11111111-2222-3333-4444-555555555555", "legit-L")
+	idL = refctl.NewIdentity("1111AAAA-2222-3333-4444-5555bbbb6666", "legit-L")
 	idX = refctl.NewIdentity("EEEEEEEE-0000-0000-0000-EEEEEEEEEEEE", "adversary-X")
 )
 
@@ -36,6 +36,20 @@ var c03Alphabet = []string{
 	"L:finish-reordered", "L:finish-stale", "X:state-7", "X:method-1", "X:reopen", "L:reopen",
 	"X:finish-naming-keyless-entity", "X:finish-naming-shortkey-entity",
 	"X:start-replay-L", "L:finish-genuine-begin", "L:finish-genuine-end",
+	"L:finish-signed-by-L-naming-case-variant", "L:finish-signed-by-L-naming-prefix-of-L",
+}
+
+func swapCase(s string) string {
+	b := []byte(s)
+	for i, c := range b {
+		switch {
+		case c >= 'a' && c <= 'z':
+			b[i] = c - 32
+		case c >= 'A' && c <= 'Z':
+			b[i] = c + 32
+		}
+	}
+	return string(b)
 }
 
 // connection state in the reference model
@@ -247,6 +261,19 @@ func (r *c03Run) step(ev string) bool {
 	case "finish-signed-by-X-naming-L":
 		isFinish = true
 		m, err = post(refctl.VerifyM3Sealed(ctxv.EncKey, ctxv.M3Sub(idL.ID, idX.Priv)))
+	case "finish-signed-by-L-naming-case-variant", "finish-signed-by-L-naming-prefix-of-L":
+		// L's own key and a well-formed exchange, but the claimed name is not a stored one: no key is stored
+		// for it, so it must be refused like any unknown name
+		isFinish = true
+		name := swapCase(idL.ID)
+		if strings.Contains(op, "prefix") {
+			name = idL.ID[:len(idL.ID)-1]
+		}
+		x := ctxv
+		if pending != nil {
+			x = pending
+		}
+		m, err = post(refctl.VerifyM3Sealed(x.EncKey, x.M3Sub(name, idL.Priv)))
 	case "finish-unknown-name":
 		isFinish = true
 		m, err = post(refctl.VerifyM3Sealed(ctxv.EncKey, ctxv.M3Sub("nobody", idX.Priv)))
@@ -449,7 +476,7 @@ func c03Run1(c *fw.Ctx) {
 		n = 16 // quick: the first 16 symbols (simplest first) …
 	}
 	// … plus the two degenerate-entity symbols
-	alpha := append(append([]string{}, c03Alphabet[:n]...), "X:finish-naming-keyless-entity", "X:finish-naming-shortkey-entity", "L:finish-genuine-begin", "L:finish-genuine-end")
+	alpha := append(append([]string{}, c03Alphabet[:n]...), "X:finish-naming-keyless-entity", "X:finish-naming-shortkey-entity", "L:finish-genuine-begin", "L:finish-genuine-end", "L:finish-signed-by-L-naming-case-variant")
 	if c.Thorough() {
 		alpha = c03Alphabet
 	}
@@ -498,7 +525,7 @@ func init() {
 	fw.Register(&fw.Check{
 		ID:    "C03",
 		Level: "model_checking",
-		Rule:  "every history of length ≤3 (quick, 20 symbols) / ≤4 (thorough, 27 symbols) over the pair-verify alphabet on an adversary connection X and a legitimate connection L (start valid / 31 / 33 / 0-byte key / all-zero point; finish genuine, signed by X naming L, unknown name, naming the accessory, sealed under zero / wrong key, 0 and 15 byte payloads, tag flipped, L's captured finish replayed, L's signature over reordered or stale material, naming a stored entity that has no key / a 5-byte key; unknown state; unknown method; reopen; L's start replayed by X; L's genuine finish split with Expect: 100-continue so that its handler overlaps with later events) against the real transport over TCP; each node is replayed on a fresh system; after every event the response is compared with the reference model (verified ⇔ genuine finish by L directly after an accepted start, computed by the independent controller), and at the end of every history each connection is probed destructively: an unverified one must answer plaintext, refuse protected reads and not serve ciphertext under its own exchange keys; a verified one must serve encrypted requests. The same alphabet (all 27 symbols) is also explored to depth 2 (thorough 3) from two non-initial states: L already verified on its connection, and L verified once and then removed by an administrator through /pairings (its genuine finish must then be refused). states = tree nodes, distinct_nontrivial = distinct (event → response class) pairs",
+		Rule:  "every history of length ≤3 (quick, 21 symbols) / ≤4 (thorough, 29 symbols) over the pair-verify alphabet on an adversary connection X and a legitimate connection L (start valid / 31 / 33 / 0-byte key / all-zero point; finish genuine, signed by X naming L, unknown name, naming the accessory, sealed under zero / wrong key, 0 and 15 byte payloads, tag flipped, L's captured finish replayed, L's signature over reordered or stale material, naming a stored entity that has no key / a 5-byte key, signed by L's own key but naming the case-swapped spelling / a prefix of its name; unknown state; unknown method; reopen; L's start replayed by X; L's genuine finish split with Expect: 100-continue so that its handler overlaps with later events) against the real transport over TCP; each node is replayed on a fresh system; after every event the response is compared with the reference model (verified ⇔ genuine finish by L directly after an accepted start, computed by the independent controller), and at the end of every history each connection is probed destructively: an unverified one must answer plaintext, refuse protected reads and not serve ciphertext under its own exchange keys; a verified one must serve encrypted requests. The same alphabet (all 29 symbols) is also explored to depth 2 (thorough 3) from two non-initial states: L already verified on its connection, and L verified once and then removed by an administrator through /pairings (its genuine finish must then be refused). states = tree nodes, distinct_nontrivial = distinct (event → response class) pairs",
 		Run:   c03Run1,
 		Replay: func(c *fw.Ctx, raw json.RawMessage) {
 			var cas c03Case
